@@ -351,3 +351,50 @@ func (c *Ctx) globalStringMapKeys(g *ssa.Global) []string {
 	}
 	return keys
 }
+
+// globalTableFlagOrder: g is a package-level slice of records built once by the initialiser from a
+// literal; returns, in the order of the literal, the names of the package-level variables whose
+// address is stored in the records (a table `{&rootphylip, ".ph"}, {&rootnexus, ".nx"}, …`).
+func (c *Ctx) globalTableFlagOrder(g *ssa.Global) []string {
+	sl, ok := c.globalInitValue(g).(*ssa.Slice)
+	if !ok {
+		return nil
+	}
+	al, ok := sl.X.(*ssa.Alloc)
+	if !ok {
+		return nil
+	}
+	byIdx := map[int64]string{}
+	for _, ref := range *al.Referrers() {
+		ia, ok := ref.(*ssa.IndexAddr)
+		if !ok {
+			continue
+		}
+		k, ok := constInt(ia.Index)
+		if !ok {
+			return nil
+		}
+		for _, r2 := range *ia.Referrers() {
+			fa, ok := r2.(*ssa.FieldAddr)
+			if !ok {
+				continue
+			}
+			for _, r3 := range *fa.Referrers() {
+				if st, ok := r3.(*ssa.Store); ok {
+					if gl, ok := st.Val.(*ssa.Global); ok {
+						byIdx[k] = gl.Name()
+					}
+				}
+			}
+		}
+	}
+	var out []string
+	for k := int64(0); k < int64(len(byIdx)); k++ {
+		n, ok := byIdx[k]
+		if !ok {
+			return nil
+		}
+		out = append(out, n)
+	}
+	return out
+}
